@@ -306,6 +306,12 @@ Definition text_encode (f : pk_form) (d : dtv) : option wire :=
 Definition text_wire_decode (q : bool) (w : wire) : option dtv :=
   match w with WText s => text_decode q s | _ => None end.
 
+(* SQLite: the reader derives a column's field type from its DECLARED type (GENERATED: what the writer declares for a
+   datetime field when it creates the table and when it adds the column to an existing table, and what the reader
+   makes of that declaration).  A column that does not read as "datetime" hands the stored text back as text. *)
+Definition sqlite_decode (reads_as : string) (q : bool) (w : wire) : option dtv :=
+  if String.eqb reads_as "datetime" then text_wire_decode q w else None.
+
 (* Avro timestamp-micros: the writer stores the instant (any instant fits a long).  The reader hands back
    EPOCH + timedelta(microseconds=n) when the schema carries the logical type (fastavro) or when the raw number
    exceeds the reader's guard; a raw number not above the guard would be taken as epoch SECONDS.  An instant whose
@@ -333,3 +339,20 @@ Definition reads_display (readers : list string) (fns : list string) : bool :=
    the setting-free result `base`; the others may depend on it through `shown` *)
 Definition observe {R : Type} (readers fns : list string) (base : R) (shown : option Z -> R) (display : option Z) : R :=
   if reads_display readers fns then shown display else base.
+
+(* ---------------------------------------------------------------- how a timestamp enters a record
+   Every route must run the field type's constructor (dt_new); a route that stores its argument as it is leaves a
+   naive datetime naive and text / numbers unconverted.  Which routes do is a GENERATED fact (functions observed to
+   run for each route). *)
+Inductive entry_route : Set :=
+| RCtorKw | RCtorPos | RSetattr | RReplace | RGroupSetattr | RNestedGroupSetattr | RGroupReplace
+| RInitFromDict | RInitFromRecord | RExtendRecord | RListElem | RListSetattr.
+Definition all_routes : list entry_route :=
+  [RCtorKw; RCtorPos; RSetattr; RReplace; RGroupSetattr; RNestedGroupSetattr; RGroupReplace;
+   RInitFromDict; RInitFromRecord; RExtendRecord; RListElem; RListSetattr].
+Definition DT_CONSTRUCTOR : string := "fieldtypes/__init__:datetime.__new__".
+Definition route_coerces (fns : list string) : bool := string_in DT_CONSTRUCTOR fns.
+Inductive stored : Type := StoredValue (d : dtv) | StoredRaw (i : dt_input) | Rejected.
+Definition enter_via (fns : list string) (q keeps_fold : bool) (i : dt_input) : stored :=
+  if route_coerces fns then (match dt_new q keeps_fold i with Some d => StoredValue d | None => Rejected end)
+  else StoredRaw i.
